@@ -16,6 +16,8 @@ RULE = ("series on G(7,k), k=2..5/6 (+2 dyadic/float images) x every pair of abs
 ASSUMPTIONS = ["ratio bounds are enumerated on dyadic grids only (bound = r*span + x0 is then exact in floating point)",
                "only valid requests (left < right, indices in range, values present) - rejections belong to C20"]
 ANCHORS = {"process.py": [(354, 365)], "weaver.py": [(309, 315), (348, 360), (978, 988)]}
+FORMS_HARNESSES = "all"
+FORMS_WIDTH = {"truncate-long-series": 2}
 EXPLANATION = "list-comprehension definitions evaluated on every element of a bounded input lattice"
 
 
@@ -294,14 +296,18 @@ def harnesses(tier, seed):
         path = ctx.choose(["process", "weaver"], "path")
         x = A.long_grid(m, gk)
         y = A.long_values(m, "saw")
-        idx = A.interesting_indices(m, dense_to=20, subpath="", limit=26 if m <= 100 else 14)
+        if m > 2500 and gk == "offset":
+            return
+        idx = A.interesting_indices(m, dense_to=20, subpath="", limit=26 if m <= 100 else 14 if m <= 2500 else 8)
         pts = {x[0] - 1.0, x[-1] + 1.0}
         for i in idx:
             pts.add(x[i])
             if i + 1 < m:
                 pts.add((x[i] + x[i + 1]) / 2)
         pts = sorted(pts)
-        for l, r in itertools.combinations(pts, 2):
+        for pi, (l, r) in enumerate(itertools.combinations(pts, 2)):
+            if m > 2500 and pi % 6:
+                continue        # very long series: every third bound pair (each bound still occurs on both sides)
             judge(ctx, check_truncate_long, {"len": m, "grid": gk, "left": l, "right": r, "path": path}, bulk=True,
                   nontrivial=lambda s_: any(a or b for a, b in s_[2]))
 
@@ -327,7 +333,7 @@ def harnesses(tier, seed):
             judge(ctx, check_truncate, {"x": x, "y": y, "left": l, "right": r, "lr": False, "rr": False, "path": path},
                   bulk=True, nontrivial=lambda s_: any(a or b for a, b in s_[2]))
 
-    long_sizes = A.sizes(24 if quick else 50, 1100 if quick else 70000)
+    long_sizes = A.sizes(24 if quick else 50, 17000 if quick else 70000)
     return [{"name": "truncate-long-series", "body": trunc_long_body,
              "bound_text": "sizes up to %d (dense range, 2^k+1, around every integer constant of the code)" % long_sizes[-1]},
             {"name": "truncate-bounds-one-ulp-around-samples", "body": trunc_ulp_body},
